@@ -265,6 +265,15 @@ class RowSeq(SymSeq):
 class AbsGc:
     """identity of a managed non-object allocation Ref<T> (fibers' waiters, channel queues, modules, ...)"""
     __slots__ = ('id', 'ty')
+    is_pointer_like = True      # Box<dyn T> / NonNull wrappers around it project to the identity itself
+
+    def transmute(self, eng, to):
+        if norm_ty(to).startswith('*') or 'NonNull' in to:
+            return self
+        raise Unsupported(f'transmute of a managed reference to {to}')
+
+    def deref_cell(self, eng):
+        return self.data_cell(eng) if norm_ty(self.ty) != 'dyn' else Cell(self)
 
     def __init__(self, gid, ty):
         self.id = gid
